@@ -449,7 +449,9 @@ fn copy_step(st: &RState, a: &str, b: &str, mode: &CopyMode, follow: bool) -> Pr
             },
             (Kind::Dir, "dir") => {},
             (Kind::File(data), "file") => {
+                // content replaced; the docs leave the mode of a pre-existing destination file open
                 t.nodes.get_mut(&q).unwrap().kind = Kind::File(data.clone());
+                wild.mode.push(q);
             },
             _ => return Pred::Skip("copy collides with an existing entry of another kind / an existing link (C09)"),
         }
